@@ -449,11 +449,21 @@ def run_c09(tier_: str) -> int:
         versions_of.setdefault(a, []).append(v)
     fns_name = (index.load_entity_module, index.load_entity_schema)
 
-    def expect_miss(kind: str, fn, args: tuple, allowed: tuple) -> None:  # noqa: ANN001
+    PARAMS = {"load_entity_module": ("name", "version", "entity_type"), "load_entity_schema": ("name", "version", "entity_type"),  # noqa: N806
+              "load_payload_module": ("api_key", "version", "entity_type"), "load_request_schema": ("api_key", "version"), "load_response_schema": ("api_key", "version")}
+
+    def expect_miss(kind: str, fn, args: tuple, allowed: tuple, spelling: int | None = None) -> None:  # noqa: ANN001
         res.count("miss_probes")
         miss_kinds[kind] = miss_kinds.get(kind, 0) + 1
+        names = PARAMS.get(fn.__name__)
+        if spelling is None and names is not None and res.counters["miss_probes"] % 3 == 0:
+            # the same miss with the arguments passed by keyword, and with only the first one positional
+            expect_miss(kind + ":keyword", fn, args, allowed, spelling=0)
+            expect_miss(kind + ":mixed", fn, args, allowed, spelling=1)
+        pos = args if spelling is None else args[:spelling]
+        kw = {} if spelling is None else dict(zip(names[spelling:], args[spelling:]))
         try:
-            out = fn(*args)
+            out = fn(*pos, **kw)
         except allowed as exc:
             exc_seen[type(exc).__name__] = exc_seen.get(type(exc).__name__, 0) + 1
             return
